@@ -395,7 +395,7 @@ def compression_key_is_exact(ctx, P, pre):
                            strip_generics(x[1]).rsplit("::", 1)[-1] in ("to_lowercase", "to_ascii_lowercase", "to_uppercase", "to_ascii_uppercase", "trim", "replace", "trim_end_matches")]
             if not joins or transformed:
                 bad.append("%s key %s" % (method(cname(t)), show(e)[:60]))
-    ctx.ob(pre + ".compression-key-exact", f.name, n >= 2 and not bad, f.loc(),
+    ctx.ob(pre + ".compression-key-exact", f.name, n >= 1 and not bad, f.loc(),
            "%d accesses of the compression table, all keyed by the joined label suffix itself" % n if not bad else "; ".join(bad))
 
 
